@@ -224,46 +224,63 @@ namespace nmtools::utl
         constexpr explicit either(const right_t& val) noexcept
             : right(val), tag{RIGHT} {}
         
-        constexpr either(const either& other)
+        either(const either& other)
+            : tag(other.tag)
         {
-            tag = other.tag;
             if (other.tag == LEFT) {
-                if constexpr (meta::is_copy_assignable_v<left_t>) {
-                    left = other.left;
-                } else {
-                    new(&this->left) left_t(other.left);
-                }
+                new(&this->left) left_t(other.left);
             } else {
-                if constexpr (meta::is_copy_assignable_v<right_t>) {
-                    right = other.right;
-                } else {
-                    new(&this->right) right_t(other.right);
-                }
+                new(&this->right) right_t(other.right);
             }
         }
 
-        ~either() {}
+        ~either() { destroy(); }
 
-        template <typename U>
-        constexpr either& operator=(const U& val) noexcept
+        void destroy() noexcept
         {
-            return base::operator=(val);
+            if (tag == LEFT) {
+                left.~left_t();
+            } else {
+                right.~right_t();
+            }
         }
 
-        constexpr either& operator=(const either& other) noexcept
+        template <typename U>
+        either& operator=(const U& val) noexcept
         {
-            if (other.tag != tag) {
-                if (other.tag == LEFT) {
-                    // left = left_type{};
-                    new(&this->left) left_t{};
-                    tag = LEFT;
+            static_assert( meta::is_same_v<U,left_t> || meta::is_same_v<U,right_t>
+                , "unsupported type for either assignment"
+            );
+            if constexpr (meta::is_same_v<U,left_t>) {
+                if (tag == LEFT) {
+                    left = val;
                 } else {
-                    // right = right_type{};
-                    new(&this->right) right_t{};
+                    destroy();
+                    new(&this->left) left_t(val);
+                    tag = LEFT;
+                }
+            } else {
+                if (tag == RIGHT) {
+                    right = val;
+                } else {
+                    destroy();
+                    new(&this->right) right_t(val);
                     tag = RIGHT;
                 }
             }
-            return base::operator=(other);
+            return *this;
+        }
+
+        either& operator=(const either& other) noexcept
+        {
+            if (this == &other) {
+                return *this;
+            }
+            if (other.tag == LEFT) {
+                return operator=(other.left);
+            } else {
+                return operator=(other.right);
+            }
         }
     }; // either
 
